@@ -88,6 +88,11 @@ def gen_specs(ctx):
     out.append((S([F("name", "string"), F("Age")]), False))
     # witness of the known finding F_jsonSkipExported: an exported field left out of generation
     out.append((S([F("Name", "string"), F("Secret", "string", tagskip=True), F("age")]), True))
+    # all-in-one runs over an embedded shoot type whose NAME sorts after "T" (value and pointer embed, -file= and -type=*)
+    for k, (nm, ptr, fm) in enumerate((("node", False, "file"), ("inner", True, "star"), ("Zed", False, "star"), ("Ux", True, "file"))):
+        sh = S([F("title", "string"), E(nm, [F("id"), F("createdBy", "string", get=True), F("Pub")], ptr=ptr, shoot=True), F("n%d" % k)])
+        sh["force_mode"] = fm
+        out.append((sh, True))
     n = ctx.n(200, 2000)
     for _ in range(n):
         getset = ctx.rng.random() < 0.75
@@ -149,10 +154,27 @@ def run(ctx, obl):
             args = ["new", "-json", "-tagcase=" + tagcases[i], "-type=" + ",".join(cnames + cafter + [s["name"]])]
             runs = [{"args": a1}, {"args": args}]
             res.hist("split_run", "getset-types-first")
+        # the ALL-IN-ONE selection modes (-file=t.go, -type=* with its go:generate line) generate every struct of the file in
+        # declaration order with the same flags: used where that is the same set of types (every local embedded struct is a
+        # shoot type without local embeds of its own, no struct-typed leaves), each embedded type declared before its embedder;
+        # some embedded names (inner, node) sort AFTER "T"
+        local = [m for m in s["members"] if m["k"] == "e" and m.get("pkg") != "sub"]
+        mode = "list"
+        if s.get("force_mode"):
+            cdecls, cnames, cafter = [], [], []
+        if (getset and not cnames and not cafter and not s["tparams"] and not newgen.uses_type(s, "Inner") and (ctx.rng.random() < 0.35 or s.get("force_mode"))
+                and all(m.get("shoot") and not any(mm["k"] == "e" and mm.get("pkg") != "sub" for mm in m["decl"]["members"]) for m in local)):
+            mode = s.get("force_mode") or ctx.rng.choice(["file", "file", "star"])
+            args = ["new", "-getset", "-json", "-tagcase=" + tagcases[i], "-file=t.go" if mode == "file" else "-type=*"]
+            runs = [{"args": args}] * (1 if s.get("force_mode") else len(runs))
+        res.hist("selection_mode", mode + ("+embedded-shoot-type" if local and mode != "list" else ""))
         inst = newgen.instantiate(s)
         oracle = ('package cs\n\nimport "verifcases/vo"\n\nfunc VerifObserve(emit func(string, string)) {\n'
                   '\tvo.ObserveJSON(emit, func() any { return new(%s) }, %s)\n}\n' % (inst, json.dumps(json.dumps(doc))))
-        pc = {"id": cid, "files": {"t.go": newgen.render_file("cs", cdecls + [s])}, "runs": runs, "oracle": {".": oracle},
+        tgo = newgen.render_file("cs", cdecls + [s], deps_first=mode != "list")
+        if mode == "star":
+            tgo = tgo.replace("package cs\n", "package cs\n\n//go:generate shoot " + " ".join(args) + "\n", 1)
+        pc = {"id": cid, "files": {"t.go": tgo}, "runs": runs, "oracle": {".": oracle},
               "spec": s, "sexp": json_sexp(cid, s, facts[i], getset, tagcases[i], keys), "cmd": " ; ".join("shoot " + " ".join(r["args"]) for r in runs),
               "key": dump([getset, tagcases[i], typedoc_sexp(s.get("typedoc")), members_sexp_json(s), sorted(facts[i])]), "getset": getset}
         b.add(pc)
@@ -181,6 +203,10 @@ def run(ctx, obl):
             d = m[side]
             d["exit"] = "0"
             d["compile"] = "ok"
+            # MarshalJSON is a method of T, not only of *T: a T held in an interface, a slice of interfaces or a map gives the
+            # same document as the pointer
+            if "marshal" in d and not d["marshal"].startswith(("error", "panic")):
+                d["mval"] = "same"
             if std:
                 d["umnil"] = "std"
                 # a nil embedded pointer under the standard encoding drops its keys: nothing generated governs that
